@@ -182,6 +182,11 @@ def function_maps(loader):
 
 TASKS.append(StructTask("PRE/POST_PROCESS_FUNCTION_MAP", function_maps))
 
+# the peak-range update decides which windows and which peaks are "accepted" (its contract is proved with the C08 contracts: both masks = "has a
+# peak in the range", all windows kept when none has one); the statistics are over those sets, so it is an obligation of this property too
+import contracts.C08 as _C08
+TASKS += [t for t in _C08.TASKS if getattr(t, "label", "").startswith("hvsrpy.hvsr_traditional.HvsrTraditional.update_peaks_bounded")]
+
 META = dict(
     level="other",
     explanation="proved: _nanmean_weighted and _nanstd_weighted for a NaN-free sample without explicit weights = arithmetic / geometric mean and sample standard "
